@@ -56,7 +56,7 @@ Section WithDigest.
       /\ rs_sel st <> []
       /\ MetaText.make_items H (rc_audit cfg) (rc_algo cfg) None (filter_desc cfg) (map uuid_of (rs_sel st)) = Ok (rs_md st).
   Proof.
-    unfold run_prepare, prepare_from. intros Hr. cbv zeta in Hr.
+    unfold run_prepare, prepare_from, prepare_with. intros Hr. cbv zeta in Hr.
     destruct (price_setup cfg p) as [[f [lk db]]|c] eqn:Ep; cbn [res_bind] in Hr; [|discriminate].
     destruct (load cfg j) as [js|c] eqn:El; cbn [res_bind] in Hr; [|discriminate].
     destruct (MetaText.make_items H (rc_audit cfg) (rc_algo cfg) None (filter_desc cfg) (map uuid_of (run_filter cfg js)))
